@@ -387,6 +387,10 @@ pub fn run_index(id: &str, tier: &str, seed: u64, idx: u64, stats: &mut Stats, k
     if id == "C07" && idx % 160 == 3 {
         return c07_enumeration(id, seed, idx, stats, known);
     }
+    if (id == "C13" || id == "C05") && idx % 16 == 9 {
+        // the real backend's side of the property: two sibling sandboxes
+        return diffw::twin_index(id, tier, seed, idx, stats, known);
+    }
     if diffw::leg(id).is_some() && idx % 8 == 5 {
         // "on both backends": the DIFF leg of this property
         stats.bump("diff_leg_runs");
@@ -420,6 +424,7 @@ pub fn replay_value(case: &serde_json::Value) -> Result<(Option<Violation>, Stri
             let f = run_index(&prop, tier, seed, run, &mut st, &|_| false);
             Ok((f.map(|f| f.violation), String::new()))
         },
+        "TWIN" => diffw::replay_twin(case),
         "CONC" => conc::replay(case),
         "DIFF" => diffw::replay(case),
         "ENV" => envw::replay(case),
